@@ -5,6 +5,8 @@
 package gabi
 
 import (
+	"sort"
+
 	"github.com/privacybydesign/gabi/big"
 	"github.com/privacybydesign/gabi/gabikeys"
 	"github.com/privacybydesign/gabi/internal/common"
@@ -330,24 +332,32 @@ func (p *ProofD) ChallengeContribution(pk *gabikeys.PublicKey) ([]*big.Int, erro
 				return nil, err
 			}
 		}
-		// need stable attribute order for rangeproof contributions, so determine max undisclosed attribute
-		maxAttribute := 0
-		for k := range p.AResponses {
-			if k > maxAttribute {
-				maxAttribute = k
-			}
+		// need stable attribute order for rangeproof contributions
+		indices := make([]int, 0, len(p.RangeProofs))
+		for index := range p.RangeProofs {
+			indices = append(indices, index)
 		}
-		for index := 0; index <= maxAttribute; index++ {
-			structures, ok := p.cachedRangeStructures[index]
-			if !ok {
-				continue
+		sort.Ints(indices)
+		for _, index := range indices {
+			// every range proof must be about a hidden attribute of this proof
+			mResponse := p.AResponses[index]
+			if mResponse == nil {
+				return nil, errors.New("range proof on attribute that is not hidden")
 			}
-			for i, s := range structures {
-				p.RangeProofs[index][i].MResponse = new(big.Int).Set(p.AResponses[index])
-				if !s.VerifyProofStructure(pk, p.RangeProofs[index][i]) {
+			proofs, structures := p.RangeProofs[index], p.cachedRangeStructures[index]
+			if len(proofs) != len(structures) {
+				return nil, errors.New("Invalid range proof")
+			}
+			for i, proof := range proofs {
+				s := structures[i]
+				if proof == nil || s == nil {
 					return nil, errors.New("Invalid range proof")
 				}
-				l = append(l, s.CommitmentsFromProof(pk, p.RangeProofs[index][i], p.C)...)
+				proof.MResponse = new(big.Int).Set(mResponse)
+				if !s.VerifyProofStructure(pk, proof) {
+					return nil, errors.New("Invalid range proof")
+				}
+				l = append(l, s.CommitmentsFromProof(pk, proof, p.C)...)
 			}
 		}
 	}
